@@ -198,6 +198,19 @@ def canary(run):
         raise common.AnalysisBroken("C14 canary: key extraction did not behave as expected: %s %s" % (unkeyed, cross))
 
 
+# state that only exists when the program uses it: the `next` pointer holder of method::next<Container> (the same container tag used
+# with methods of two policies) and the handler of policies configured with the same external handler provider
+EXTRA_STATE = """
+namespace yw_x { struct tag; struct key;
+struct prov { static void default_error_handler(const error_type&); };
+struct PA : policy::basic_policy<PA, policy::std_rtti, policy::fast_perfect_hash<PA>, policy::vptr_vector<PA>, policy::vectored_error<PA, prov>> {};
+struct PB : PA::rebind<PB> {};
+using MA = method<key, int(virtual_<yw::A&>), PA>; using MB = method<key, int(virtual_<yw::A&>), PB>;
+void* n1() { return &MA::next<tag>::next; } void* n2() { return &MB::next<tag>::next; }
+void h() { PA::error(error_type()); PB::error(error_type()); auto a = &PA::error; auto b = &PB::error; (void)a; (void)b; } }
+"""
+
+
 def check(run):
     canary(run)
     r1, r2, r3, r4 = "C14-keyed", "C14-cross", "C14-disjoint", "C14-rebind"
@@ -210,7 +223,7 @@ def check(run):
     shapes = ["r", "rir", "V", "sS", "Xt", "rrr"] if run.tier == "quick" else callpath.shapes_for("quick")
     src, _ = witness.call_matrix(pols, shapes, witness.routes_block(pols) + "\n" + witness.update_block(pols) + "\n#include <yorel/yomm2/keywords.hpp>\n"
                                  "namespace yw_sh { struct ms : policy::debug_shared {}; void u1() { update<policy::debug_shared>(); } "
-                                 "const std::uintptr_t* v(yw::A& a) { return policy::release_shared::dynamic_vptr(a); } }")
+                                 "const std::uintptr_t* v(yw::A& a) { return policy::release_shared::dynamic_vptr(a); } }\n" + EXTRA_STATE)
     variants = [True] if run.tier == "quick" else [True, False]
     for nd in variants:
         ast = astq.Ast(common.ast_json(run, src, "c14_all_%s" % ("nd" if nd else "dbg"), ndebug=nd, funcs="@none@", refs=True))
